@@ -25,7 +25,10 @@ static int re_groupcount(char *s)
 			if (s[0] == '\\' && s[1]) {
 				s++;
 			} else if (s[0] == '[' && s[1] && s[2]) {
-				s += s[1] == '^' ? 2 : 1;
+				if (s[1] == '^')
+					s++;
+				if (s[1] == ']')	/* a leading ] is an ordinary member */
+					s++;
 				brk = 1;
 			}
 		} else {
